@@ -53,9 +53,11 @@ class Mutation:
 
 class Effects:
 
-  def __init__(self, repo: Repo):
+  def __init__(self, repo: Repo, consts: dict[str, bool] | None = None):
     self.repo = repo
     self._env_cache: dict = {}
+    # known constant flags (e.g. in_place=False) used to fold `a if flag else b`
+    self.consts = dict(consts or {})
 
   # ---- properties that are plain field views ------------------------------
 
@@ -78,16 +80,41 @@ class Effects:
         return f
     return attr
 
+  def live(self, root: ast.AST):
+    """walk_no_nested that prunes branches decided by self.consts."""
+    if not self.consts:
+      yield from walk_no_nested(root)
+      return
+    stack = [root]
+    first = True
+    while stack:
+      n = stack.pop()
+      if not first and isinstance(
+          n, (ast.FunctionDef, ast.AsyncFunctionDef, ast.ClassDef, ast.Lambda)):
+        continue
+      first = False
+      yield n
+      if isinstance(n, ast.If):
+        t, neg = n.test, False
+        if isinstance(t, ast.UnaryOp) and isinstance(t.op, ast.Not):
+          t, neg = t.operand, True
+        if isinstance(t, ast.Name) and t.id in self.consts:
+          val = bool(self.consts[t.id]) != neg
+          stack.extend(reversed(n.body if val else n.orelse))
+          continue
+      stack.extend(reversed(list(ast.iter_child_nodes(n))))
+
   # ---- taint ------------------------------------------------------------------
 
   def env(self, fi: FuncInfo, tainted: dict[str, int]) -> dict[str, int]:
-    key = (fi.module.name, fi.qualname, tuple(sorted(tainted.items())))
+    key = (fi.module.name, fi.qualname, tuple(sorted(tainted.items())),
+           tuple(sorted(self.consts.items())))
     if key in self._env_cache:
       return self._env_cache[key]
     env = dict(tainted)
     for _ in range(4):
       before = dict(env)
-      for n in walk_no_nested(fi.node):
+      for n in self.live(fi.node):
         self._bind(n, env)
       if env == before:
         break
@@ -171,6 +198,12 @@ class Effects:
     if isinstance(e, ast.Starred):
       return self.level(e.value, env)
     if isinstance(e, ast.IfExp):
+      t, neg = e.test, False
+      if isinstance(t, ast.UnaryOp) and isinstance(t.op, ast.Not):
+        t, neg = t.operand, True
+      if isinstance(t, ast.Name) and t.id in self.consts:
+        val = bool(self.consts[t.id]) != neg
+        return self.level(e.body if val else e.orelse, env)
       return max(self.level(e.body, env), self.level(e.orelse, env))
     if isinstance(e, ast.BoolOp):
       return max(self.level(v, env) for v in e.values)
@@ -231,7 +264,7 @@ class Effects:
     def hit(node, target_expr, how):
       out.append(Mutation(fi, node, unparse(target_expr), how, here))
 
-    for n in walk_no_nested(fi.node):
+    for n in self.live(fi.node):
       if isinstance(n, (ast.Assign, ast.AnnAssign)):
         tg = n.targets if isinstance(n, ast.Assign) else [n.target]
         for t in tg:
